@@ -110,10 +110,11 @@ theorem apStep_length (s : List Nat) (off : Int) (acc : List Nat × Bool) (k : N
 
 theorem applyPat_length (h : List Nat) (n i : Nat) (s : List Nat) : (applyPat h n i s).1.length = h.length := by
   rw [applyPat_eq]
-  generalize (min (s.length : Int) ((n : Int) - ((i : Int) + 1 - (s.length : Int)))).toNat = m
+  generalize (if (i : Int) + 1 - (s.length : Int) < 0 then (-((i : Int) + 1 - (s.length : Int))).toNat else 0) = k0
+  generalize (min (s.length : Int) ((n : Int) - ((i : Int) + 1 - (s.length : Int)))).toNat - k0 = m
   induction m with
   | zero => rfl
-  | succ m ih => rw [List.range_succ, List.foldl_append]; simp only [foldl_cons, foldl_nil]; rw [apStep_length, ih]
+  | succ m ih => rw [List.range'_concat, List.foldl_append]; simp only [foldl_cons, foldl_nil]; rw [apStep_length, ih]
 
 theorem walkStep_length (d : Dict) (n : Nat) (w : Walk) (i ch : Nat) :
     (walkStep d n w i ch).hyphens.length = w.hyphens.length := by
